@@ -24,6 +24,7 @@ pub fn def() -> CheckDef {
         cpu_limit_s: 60,
         fault_kinds: "none (configuration knob max_buffer_size swept so the buffer-miss paths run)",
         count_subruns: false,
+        expect_probes: &[],
     }
 }
 
